@@ -205,6 +205,32 @@ func Builders(thorough bool) []Builder {
 			}
 		}
 	}
+	// one and two chunks of two items: the two text lengths crossed fully (item boundaries against the
+	// terminating octet and the padding), CNAME first or second
+	for l0 := 0; l0 <= 8; l0++ {
+		for l1 := 0; l1 <= 8; l1++ {
+			for _, cnFirst := range []bool{true, false} {
+				for _, nc := range []int{1, 2} {
+					if nc == 2 && (!cnFirst || l0 > 4 || l1 > 4) {
+						continue
+					}
+					l0, l1, cnFirst, nc := l0, l1, cnFirst, nc
+					add("SourceDescription", fmt.Sprintf("chunks=%d,two-items,len=%d+%d,cname-first=%v", nc, l0, l1, cnFirst), func() rtcp.Packet {
+						t := &tagger{}
+						t0, t1 := rtcp.SDESCNAME, rtcp.SDESNote
+						if !cnFirst {
+							t0, t1 = rtcp.SDESTool, rtcp.SDESCNAME
+						}
+						p := &rtcp.SourceDescription{Chunks: []rtcp.SourceDescriptionChunk{{Source: t.u32(), Items: []rtcp.SourceDescriptionItem{{Type: t0, Text: t.text(l0)}, {Type: t1, Text: t.text(l1)}}}}}
+						if nc == 2 {
+							p.Chunks = append(p.Chunks, rtcp.SourceDescriptionChunk{Source: t.u32(), Items: []rtcp.SourceDescriptionItem{{Type: rtcp.SDESCNAME, Text: t.text(3)}}})
+						}
+						return p
+					})
+				}
+			}
+		}
+	}
 	// BYE
 	for _, n := range counts {
 		for _, l := range textLens {
